@@ -178,7 +178,7 @@ class Harness:
         self.inits = 0
         self.runaway = False
         self.workers = []         # every run thread this simulator ever created
-        self.max_exec = 32 * (len(prog.get("handlers", {})) + len(prog.get("init", [])) + 50)
+        self.max_exec = 32 * (len(prog.get("handlers", {})) + len(prog.get("init", [])) + len(prog.get("initial", [])) + 50)
         h = self
 
         class ProgModel(DSOLModel):
@@ -188,6 +188,9 @@ class Harness:
                 if h.on_construct:
                     h.on_construct(self)
                 h._actions(self, h.prog.get("init", []), None)
+
+            def initial(self):
+                h._actions(self, h.prog.get("initial", []), "@initial")
 
             def h(self, tag):
                 sim = self.simulator
@@ -225,6 +228,20 @@ class Harness:
         self.on_action = None
         self.model = ProgModel(self.sim)
         self.recorder = Recorder()
+        self.experiment = None
+        if prog.get("experiment"):
+            from pydsol.core.streams import StreamInformation, MersenneTwister, SimpleStreamUpdater, StreamSeedUpdater
+            specs = prog.get("streams", [])
+            info = StreamInformation(MersenneTwister(specs[0].get("seed", 10))) if prog["experiment"].get("default_first") else StreamInformation()
+            for sp in specs:
+                info.add_stream(sp["name"], MersenneTwister(sp.get("seed", 10)))
+            if prog["experiment"]["updater"] == "table":
+                upd = StreamSeedUpdater({specs[0]["name"]: prog["experiment"]["table"]})    # the other streams use the fallback updater
+            else:
+                upd = SimpleStreamUpdater()
+            self.experiment = {"info": info, "updater": upd}
+        if prog.get("initial"):
+            self.sim.add_initial_method(self.model, "initial")      # registered once, before the first initialize
         self.types = [SimulatorInterface.STARTING_EVENT, SimulatorInterface.START_EVENT, SimulatorInterface.STOPPING_EVENT,
                       SimulatorInterface.STOP_EVENT, SimulatorInterface.TIME_CHANGED_EVENT,
                       ReplicationInterface.START_REPLICATION_EVENT, ReplicationInterface.END_REPLICATION_EVENT,
@@ -330,8 +347,12 @@ class Harness:
         from pydsol.core.interfaces import StatEvents
         sim = model.simulator
         self.streams = {sp["name"]: MersenneTwister(sp["seed"]) for sp in self.prog.get("streams", []) if sp.get("via") != "info"}
+        if self.experiment is not None:
+            # experiment style: the streams live in one StreamInformation for all replications; the driver re-seeds them
+            # with a stream updater before every initialize (see update_seeds)
+            self.streams = dict(self.experiment["info"].get_streams())
         for sp in self.prog.get("streams", []):
-            if sp.get("via") == "info":
+            if sp.get("via") == "info" and self.experiment is None:
                 # the documented convenience: a fresh StreamInformation() owns a fresh 'default' stream (seed 10)
                 from pydsol.core.streams import StreamInformation
                 self.streams[sp["name"]] = StreamInformation().get_stream("default")
@@ -541,6 +562,15 @@ class Harness:
         self.pause_at = None
         self.pause_gate.open.set()
         return out, stop_out, parked
+
+    def update_seeds(self, replication_nr):
+        """what an experiment driver does between replications"""
+        self.experiment["updater"].update_seeds(self.experiment["info"].get_streams(), replication_nr)
+
+    def reset_logs(self):
+        for lst in (self.hlog, self.slog, self.nlog, self.timeline, self.published):
+            del lst[:]
+        self.exec_count = 0
 
     def trace(self, first=0):
         return [(t, c) for (t, c, _, _) in self.hlog[first:]]
